@@ -17,7 +17,7 @@ Lemma m_bounds its : forall pos s ops cs e cs',
 Proof.
   induction its as [|it r IH]; intros pos s ops cs e cs' H.
   - cbn in H. injection H as <- _. lia.
-  - destruct it as [x|k|k|g|g| |]; cbn [m] in H.
+  - destruct it as [x|k|k|g|g| | |k]; cbn [m] in H.
     + destruct s as [|y s]; [discriminate|]. destruct (Ascii.eqb y x); [|discriminate].
       apply IH in H. cbn. lia.
     + destruct s as [|y s]; [discriminate|]. destruct (in_cls k y); [|discriminate].
@@ -28,6 +28,8 @@ Proof.
     + destruct (lookup_g g ops); [|discriminate]. apply IH in H. exact H.
     + destruct (Nat.eqb pos 0); [|discriminate]. apply IH in H. exact H.
     + destruct s; [|discriminate]. apply IH in H. exact H.
+    + destruct s as [|y s]; [discriminate|]. destruct (in_cls k y); [|discriminate].
+      apply IH in H. rewrite skipn_length in H. pose proof (decode_rune_width y s). lia.
 Qed.
 
 Lemma find_from_bounds its : forall s pos mt,
